@@ -252,22 +252,32 @@ def _table(ds, start, end):
             raise RefEvalError("no such bucket")
         return b
 
+    # The simple built-ins are re-stated here (new lists, arguments untouched) rather than borrowed from aw_transform,
+    # so that e.g. a concat that extends its first argument in place is visible as a wrong value of that variable.
+    import re as _re
+    from datetime import timedelta as _td
+
+    def _events(x):
+        if not isinstance(x, list):
+            raise RefEvalError("events argument is not a list")
+        return x
+
     return {
         "find_bucket": find_bucket,
         "query_bucket": lambda b: ds[need_bucket(b)].get(starttime=start, endtime=end),
         "query_bucket_eventcount": lambda b: ds[need_bucket(b)].get_eventcount(starttime=start, endtime=end),
-        "filter_keyvals": lambda ev, k, vals: T.filter_keyvals(ev, k, vals, False),
-        "exclude_keyvals": lambda ev, k, vals: T.filter_keyvals(ev, k, vals, True),
-        "filter_keyvals_regex": lambda ev, k, rx: T.filter_keyvals_regex(ev, k, rx),
+        "filter_keyvals": lambda ev, k, vals: [e for e in _events(ev) if k in e.data and e.data[k] in vals],
+        "exclude_keyvals": lambda ev, k, vals: [e for e in _events(ev) if not (k in e.data and e.data[k] in vals)],
+        "filter_keyvals_regex": lambda ev, k, rx: [e for e in _events(ev) if k in e.data and bool(_re.findall(rx, e.data[k]))],
         "filter_period_intersect": lambda a, b: T.filter_period_intersect(a, b),
         "period_union": lambda a, b: T.period_union(a, b),
-        "limit_events": lambda ev, n: T.limit_events(ev, n),
+        "limit_events": lambda ev, n: list(_events(ev)[:n]),
         "merge_events_by_keys": lambda ev, ks: T.merge_events_by_keys(ev, ks),
         "chunk_events_by_key": lambda ev, k: T.chunk_events_by_key(ev, k),
-        "sort_by_timestamp": lambda ev: T.sort_by_timestamp(ev),
-        "sort_by_duration": lambda ev: T.sort_by_duration(ev),
-        "sum_durations": lambda ev: T.sum_durations(ev),
-        "concat": lambda a, b: T.concat(a, b),
+        "sort_by_timestamp": lambda ev: sorted(_events(ev), key=lambda e: e.timestamp),
+        "sort_by_duration": lambda ev: sorted(_events(ev), key=lambda e: e.duration, reverse=True),
+        "sum_durations": lambda ev: _td(seconds=sum(e.duration.total_seconds() for e in _events(ev))),
+        "concat": lambda a, b: list(_events(a)) + list(_events(b)),
         "union_no_overlap": lambda a, b: T.union_no_overlap(a, b),
         "flood": lambda ev: T.flood(ev),
         "split_url_events": lambda ev: T.split_url_events(ev),
